@@ -369,7 +369,7 @@ def rust_side(methods, tests, out, nval, chain=False, opt=None):
 
 
 # ---------------------------------------------------------------- build, run, compare
-def build_and_run(idlc, root, methods, chain=False, san=True, opt=None):
+def build_and_run(idlc, root, methods, chain=False, san=True, opt=None, extra_env=None):
     """-> {"stage": ..., ...}; on success "out" is the program's log"""
     import scrape, vlib, p_refcount
     TESTS, RT = p_refcount.TESTS, p_refcount.RT
@@ -405,7 +405,7 @@ def build_and_run(idlc, root, methods, chain=False, san=True, opt=None):
     rc, o, e = vlib.run(cmd, timeout=300)
     if rc != 0:
         return {"stage": "link", "cmd": "g++ link", "err": e[-2500:]}
-    rc, o, e = vlib.run([exe], timeout=120, env=dict(vlib.ENV, ASAN_OPTIONS="detect_leaks=0", L2_WIRE="1"))
+    rc, o, e = vlib.run([exe], timeout=300, env=dict(vlib.ENV, ASAN_OPTIONS="detect_leaks=0", L2_WIRE="1", **(extra_env or {})))
     return {"stage": "run", "rc": rc, "out": o, "err": e[-2500:]}
 
 
@@ -431,3 +431,20 @@ def compare(out, tags=("impl ", "ret ")):
     if len(runs) < 9:
         bad.append(("*", "only %d pairings ran" % len(runs), ""))
     return bad
+
+
+def perturb_verdicts(out):
+    """{pairing: [(op, slot, delta, refused, entered)]} from a run with L2_PERTURB set"""
+    runs, cur, pend, entered = {}, None, None, False
+    for l in out.split("\n"):
+        if l.startswith("pairing "):
+            cur = l[8:]; runs[cur] = []
+        elif l.startswith("perturb "):
+            pend, entered = l, False
+        elif l.startswith("impl ") and pend:
+            entered = True
+        elif l.startswith("perturbed ") and cur is not None:
+            f = dict(x.split("=") for x in l.split()[1:])
+            runs[cur].append((int(f["op"]), int(f["slot"]), int(f["delta"]), int(f["refused"]), entered))
+            pend = None
+    return runs
